@@ -8,6 +8,7 @@ for every node (all sizes, all sharing patterns).  Lemmas live in `ClvmProofs/Le
 -/
 import ClvmProofs.Lemmas.TreeHash
 import ClvmProofs.Lemmas.TreeHashCache
+import ClvmProofs.Lemmas.TreeHashTriples
 
 namespace Clvm.Props.C22
 open Clvm Clvm.Hash Clvm.TreeHash
@@ -112,5 +113,65 @@ theorem python_eq_treeHash_fresh (settable : Nat → Bool) (t : NTree) (hv : t.V
   obtain ⟨H, hg⟩ := consistent_good hc
   obtain ⟨a, e, _⟩ := pySha256Treehash_eq settable t hv hg [] (cacheOK_nil H)
   exact ⟨a, e⟩
+
+/-- `InternedTree::tree_hash` after `intern_tree`.  PARTIAL: the hash of the interned tree is proved
+(`internedTreeHash_eq_treeHash`); what is missing is C24's `intern_preserves` for the transcription
+`internTree` (the interned root denotes the same value, has consistent identities and valid inline
+atoms) — assumed here as hypotheses.  The composition is exercised by the `intern` stream/oracle. -/
+theorem internThenHash_partial (t root : NTree) (na np : Nat) (h : internTree t = .ok (root, na, np))
+    (hpres : root.erase = t.erase) (hcons : Consistent root) (hv : root.Valid) :
+    internThenHash t = .ok (treeHash t.erase) := by
+  simp [internThenHash, h, internedTreeHash_eq_treeHash root hv hcons, hpres]
+
+/-- work-list order of `tree_hash_costed`: a node on top of `ops` is processed completely — its cost
+charged (pair first, then everything in the right sub-tree, then the left), its hash pushed — before
+the rest of `ops` is looked at; the budget check fails exactly when the accumulated cost exceeds it. -/
+theorem costed_worklist_node (cpb budget : Nat) (t : NTree) (hv : t.Valid) (ops : List TreeOp)
+    (hashes : List Bytes) (cost : Nat) :
+    costedLoop cpb budget (.sexp t :: ops) hashes cost =
+      if cost + nodeCost cpb t.erase ≤ budget then
+        costedLoop cpb budget ops (treeHash t.erase :: hashes) (cost + nodeCost cpb t.erase)
+      else .error .CostExceeded :=
+  costedLoop_node cpb budget t hv ops hashes cost
+
+/-- `node_from_stream` (the classic decoder, `Clvm.Serde.Classic.nodeFromStream`) is recursive descent -/
+theorem decoder_is_recursive_descent (inp : Bytes) :
+    Serde.Classic.nodeFromStream inp [.sexp] [] = parseTree (inp.length + 1) inp :=
+  nodeFromStream_eq_parseTree inp
+
+/-- `tree_hash_from_stream`: on EVERY byte string it behaves as `node_from_stream` followed by the tree
+hash — it succeeds on the same inputs, leaves the same unread remainder, fails with the same error. -/
+theorem fromStream_eq_treeHash (inp : Bytes) :
+    treeHashFromStream inp =
+      match Serde.Classic.nodeFromStream inp [.sexp] [] with
+      | .ok (t, rest) => .ok (treeHash t, rest)
+      | .error e => .error e :=
+  treeHashFromStream_eq inp
+
+/-- in particular on every serialization the decoder accepts (canonical or not) -/
+theorem fromStream_of_decodes (inp : Bytes) (t : Tree) (rest : Bytes)
+    (h : Serde.Classic.nodeFromStream inp [.sexp] [] = .ok (t, rest)) :
+    treeHashFromStream inp = .ok (treeHash t, rest) := by
+  rw [treeHashFromStream_eq, h]
+
+/-- `parse_triples(f, true)`: on every byte string from which the classic decoder reads a tree `t`, it
+reads the same bytes, returns one triple per node of `t` and the tree hashes of all sub-trees of `t`
+in pre-order; `tree_hashes[0]` is the tree hash of `t`.  No `panic!`/index failure is reached.
+(Not covered: the converse — that `parse_triples` fails whenever the decoder fails, which is C16 — and
+the offsets stored in the triples.) -/
+theorem triples_eq_treeHash (inp : Bytes) (t : Tree) (rest : Bytes)
+    (h : Serde.Classic.nodeFromStream inp [.sexp] [] = .ok (t, rest)) :
+    (∃ ts, ts.length = nodes t ∧ parseTriples inp true = .ok (ts, some (hashList t), rest)) ∧
+    parseTriplesRootHash inp = .ok (treeHash t) := by
+  obtain ⟨ts, hl, e⟩ := parseTriples_of_decodes inp t rest h
+  refine ⟨⟨ts, hl, e⟩, ?_⟩
+  obtain ⟨tl, htl⟩ := hashList_head t
+  simp [parseTriplesRootHash, e, htl]
+
+/-- every entry of the hash list is the tree hash of the corresponding sub-tree (pre-order) -/
+theorem hashList_spec :
+    (∀ b, hashList (.atom b) = [treeHash (.atom b)]) ∧
+    (∀ l r, hashList (.pair l r) = treeHash (.pair l r) :: (hashList l ++ hashList r)) :=
+  ⟨fun _ => rfl, fun _ _ => rfl⟩
 
 end Clvm.Props.C22
